@@ -103,7 +103,32 @@ func runC17(c *Ctx) {
 	otherN := 0
 	lvl := zap.NewAtomicLevelAt(zapcore.InfoLevel)
 	core, logs := observer.New(lvl)
-	wr := &zapio.Writer{Log: zap.New(core), Level: pick(g, zapcore.InfoLevel, zapcore.WarnLevel)}
+	shared := zap.New(core)
+	wr := &zapio.Writer{Log: shared, Level: pick(g, zapcore.InfoLevel, zapcore.WarnLevel)}
+	// one run in four: a second writer on the same logger (a child's stderr
+	// next to its stdout), fed by its own task at a level that stays enabled
+	var wrB *zapio.Writer
+	var wantB []string
+	var chunksB [][]byte
+	if g.Chance(4) {
+		wrB = &zapio.Writer{Log: shared, Level: zapcore.ErrorLevel}
+		var sb []byte
+		for i := 0; i < 1+g.Draw(6); i++ {
+			line := fmt.Sprintf("b%d:%s", i, strings.Repeat("y", g.Draw(12)))
+			wantB = append(wantB, line)
+			sb = append(sb, line...)
+			sb = append(sb, '\n')
+		}
+		for len(sb) > 0 {
+			k := 1 + g.Draw(9)
+			if k > len(sb) {
+				k = len(sb)
+			}
+			chunksB = append(chunksB, sb[:k])
+			sb = sb[k:]
+		}
+		c.Describe("second writer on the same logger: %d lines in %d chunks", len(wantB), len(chunksB))
+	}
 
 	// ---- reference splitter, run over the same event list ----
 	var want []string
@@ -181,11 +206,26 @@ func runC17(c *Ctx) {
 			}
 			if i%3 == 1 {
 				otherN++
-				other.Info("unrelated entry of another logger", zap.Int("n", otherN), zap.String("pad", "0123456789abcdef"))
+				fs := []zap.Field{zap.Int("n", otherN), zap.String("pad", "0123456789abcdef")}
+				const msg = "unrelated entry of another logger"
+				switch otherN % 4 {
+				case 0:
+					other.Info(msg, fs...)
+				case 1:
+					// an entry with a hook that returns (an audit hook, say)
+					if ce := other.Check(zapcore.InfoLevel, msg); ce != nil {
+						ce.After(ce.Entry, c06quiet{}).Write(fs...)
+					}
+				case 2:
+					// a Panic-level entry whose action is a hook that returns
+					other.WithOptions(zap.WithPanicHook(c06quiet{})).Panic(msg, fs...)
+				default:
+					other.With(zap.Int("k", 1)).Warn(msg, fs...)
+				}
 			}
 			c.MixState(uint64(ev.kind)<<16 | uint64(len(ev.chunk))<<4 | uint64(strings.Count(string(ev.chunk), "\n")))
 			// the messages logged so far are exactly the reference's
-			if got := logs.Len(); got != len(want) {
+			if got := logs.FilterLevelExact(wr.Level).Len(); got != len(want) {
 				c.Fail("C17: the number of logged messages differs from the lines of the stream so far", "after event %d (%s): %d messages logged, %d expected; events: %s", i, ed[len(ed)-1], got, len(want), strings.Join(ed, " "))
 				return
 			}
@@ -199,7 +239,34 @@ func runC17(c *Ctx) {
 			return
 		}
 	})
+	if wrB != nil {
+		r.Go("producerB", func() {
+			for i, ch := range chunksB {
+				arg := append([]byte(nil), ch...)
+				if nn, err := wrB.Write(arg); nn != len(ch) || err != nil {
+					c.Fail("C17: Write did not report all bytes as consumed", "second writer, chunk %d: Write(%d bytes) returned (%d, %v)", i, len(ch), nn, err)
+					return
+				}
+				for j := range arg {
+					arg[j] = 0xEE
+				}
+				zsim.Yield(zsim.KOp, nil)
+			}
+			if err := wrB.Close(); err != nil {
+				c.Fail("C17: Close returned an error", "second writer: %v", err)
+			}
+		})
+	}
 	c.Sim()
+	if wrB != nil && !r.Failed() {
+		gotB := logs.FilterLevelExact(zapcore.ErrorLevel).All()
+		for i := 0; i < len(gotB) || i < len(wantB); i++ {
+			if i >= len(gotB) || i >= len(wantB) || gotB[i].Message != wantB[i] {
+				c.Fail("C17: the logged messages are not exactly the lines of the stream", "second writer on the same logger: message %d of %d differs from line %d of %d", i, len(gotB), i, len(wantB))
+				return
+			}
+		}
+	}
 	c.Describe("stream=%q", stream)
 	c.Describe("events: %s Close", strings.Join(ed, " "))
 	c.Nontrivial = writes >= 2 && newlines >= 1
@@ -210,7 +277,7 @@ func runC17(c *Ctx) {
 	if toggles > 0 {
 		c.Fault("level-toggle")
 	}
-	got := logs.All()
+	got := logs.FilterLevelExact(wr.Level).All()
 	for i := 0; i < len(got) || i < len(want); i++ {
 		var g1, w1 string
 		if i < len(got) {
